@@ -1,6 +1,139 @@
-(** Entry points for C14 (stub: replaced by the property's own entry file). *)
-From Coq Require Import ZArith List.
-From GV Require Import Base.Val.
+(** Entry points for C14 (k-mer parameters are never compared silently).
+
+    wire formats   kspec : (k (b ...))            k-mer length, prefix bytes
+                   option: () / (x)               bool: 0/1
+                   run   : (exit (errcode)? (step ...)) with step = (1 side kspec) Calc (side 0 query, 1 ref)
+                                                                    | (2 kspec kspec) Compare | (3) Write *)
+From Coq Require Import ZArith List Bool.
+From GV Require Import Base.Val Model.C14 Spec.C14.
+Import ListNotations.
 Open Scope Z_scope.
 
-Definition dispatch (op : Z) (a : val) : val := vbad.
+Definition to_ks (v : val) : option kspec :=
+  match v with
+  | VL [VI k; p] => Some (KS k (to_Zs p))
+  | _ => None
+  end.
+
+(** option of kspec: () -> Some None, (ks) -> Some (Some ks), malformed -> None *)
+Definition to_ks_opt (v : val) : option (option kspec) :=
+  match v with
+  | VL [] => Some None
+  | VL [x] => match to_ks x with Some s => Some (Some s) | None => None end
+  | _ => None
+  end.
+
+Definition to_Z_opt (v : val) : option Z := to_opt to_Z v.
+Definition to_Zs_opt (v : val) : option (list Z) := to_opt to_Zs v.
+
+Definition vks (s : kspec) : val := VL [VI (ks_k s); VL (map VI (ks_prefix s))].
+
+Definition vstep (st : step) : val :=
+  match st with
+  | Calc Query s => VL [VI 1; VI 0; vks s]
+  | Calc Ref s => VL [VI 1; VI 1; vks s]
+  | Compare q r => VL [VI 2; vks q; vks r]
+  | Write => VL [VI 3]
+  end.
+
+Definition vrun (r : run) : val :=
+  VL [VI (exit_status r); vopt (fun e => VI (err_code e)) (error r); vlist vstep (steps r)].
+
+Definition to_step (v : val) : option step :=
+  match v with
+  | VL [VI 1; VI sd; s] => match to_ks s with Some s => Some (Calc (if sd =? 0 then Query else Ref) s) | None => None end
+  | VL [VI 2; q; r] => match to_ks q, to_ks r with Some q, Some r => Some (Compare q r) | _, _ => None end
+  | VL [VI 3] => Some Write
+  | _ => None
+  end.
+
+Fixpoint all_some {X} (l : list (option X)) : option (list X) :=
+  match l with
+  | [] => Some []
+  | None :: _ => None
+  | Some x :: r => match all_some r with Some r' => Some (x :: r') | None => None end
+  end.
+
+(** an observed run: the error is only known to be present or not (code 0 stands for "some error") *)
+Definition to_run (v : val) : option run :=
+  match v with
+  | VL [VI ex; VI haserr; st] =>
+      match all_some (map to_step (to_list st)) with
+      | Some st => Some (Run ex (if haserr =? 0 then None else Some ENoDb) st)
+      | None => None
+      end
+  | _ => None
+  end.
+
+Definition to_dist (a : val) : option dist_opts :=
+  match a with
+  | VL [q; ql; qs; r; rl; rs; usedb; sq; db; k; p] =>
+      match to_ks_opt qs, to_ks_opt rs, to_ks_opt db with
+      | Some qs, Some rs, Some db =>
+          Some (DistOpts (to_bool q) (to_bool ql) qs (to_bool r) (to_bool rl) rs (to_bool usedb) (to_bool sq) db
+                         (to_Z_opt k) (to_Zs_opt p))
+      | _, _, _ => None
+      end
+  | _ => None
+  end.
+
+Definition to_query (a : val) : option query_opts :=
+  match a with
+  | VL [f; l; s; db] =>
+      match to_ks_opt s, to_ks_opt db with
+      | Some s, Some db => Some (QueryOpts (to_bool f) (to_bool l) s db)
+      | _, _ => None
+      end
+  | _ => None
+  end.
+
+Definition dispatch (op : Z) (a : val) : val :=
+  match op with
+  (* 1: kspec_from_params (k? prefix? default) -> (0 (ks)?) | (1 code) *)
+  | 1 => match a with
+         | VL [k; p; d] =>
+             match kspec_from_params (to_Z_opt k) (to_Zs_opt p) (to_bool d) with
+             | Ok o => vok (vopt vks o)
+             | Failed e => verr (err_code e)
+             end
+         | _ => vbad
+         end
+  (* 2: dist_cmd *)
+  | 2 => match to_dist a with Some o => vrun (dist_cmd o) | None => vbad end
+  (* 3: query_cmd (fixed files list sigfile? db?) *)
+  | 3 => match a with
+         | VL (fx :: rest) => match to_query (VL rest) with Some o => vrun (query_cmd (to_bool fx) o) | None => vbad end
+         | _ => vbad
+         end
+  (* 4: tree_cmd (files list sigfile? k? prefix?) *)
+  | 4 => match a with
+         | VL [f; l; s; k; p] =>
+             match to_ks_opt s with
+             | Some s => vrun (tree_cmd (TreeOpts (to_bool f) (to_bool l) s (to_Z_opt k) (to_Zs_opt p)))
+             | None => vbad
+             end
+         | _ => vbad
+         end
+  (* 5: create_cmd (files list k? prefix? db_params db?) *)
+  | 5 => match a with
+         | VL [f; l; k; p; dp; db] =>
+             match to_ks_opt db with
+             | Some db => vrun (create_cmd (CreateOpts (to_bool f) (to_bool l) (to_Z_opt k) (to_Zs_opt p) (to_bool dp) db))
+             | None => vbad
+             end
+         | _ => vbad
+         end
+  (* 6: specification of the distance command: (wf spec?) *)
+  | 6 => match to_dist a with
+         | Some o => VL [vbool (dist_wf o); vopt vks (spec_dist o)]
+         | None => vbad
+         end
+  (* 7: specification of the query command: (wf spec?) *)
+  | 7 => match to_query a with
+         | Some o => VL [vbool (query_wf o); vopt vks (spec_query o)]
+         | None => vbad
+         end
+  (* 8: the property predicate on an observed run (exit haserr steps) *)
+  | 8 => match to_run a with Some r => vbool (run_ok r) | None => vbad end
+  | _ => vbad
+  end.
